@@ -329,8 +329,60 @@ theorem commit_cut (cs : List FTxn) (t : FTxn) (hw : FileWF cs)
     rw [applyWrite_end' _ _ _ hp, voteBytes, applyWrite_status' _ _ _ _ _ hp, hfin]
     exact recover_clean _ hw1
 
+/-- every cut inside the events of a finish whose fsync raises (no `ret`) -/
+theorem fsyncfail_cut (cs : List FTxn) (t : FTxn) (hw : FileWF cs)
+    (ht : TxnWF (filePos cs) (mkTxn (filePos cs) t)) (k nb : Nat) (hk : k < 3) :
+    ∃ n, returned ((opEvents cs (.finishFsyncFails t)).take k) ≤ n ∧ n ≤ 1 ∧
+      ∃ r, recover (image (encodeFile cs) (opEvents cs (.finishFsyncFails t)) k nb) = .ok r ∧
+        r.IsClean (cs ++ [mkTxn (filePos cs) t].take n) := by
+  have hp := filePos_eq cs hw
+  have ha := abortWF_of_txnWF ht
+  have hw1 := fileWF_append cs _ hw ht
+  have hfin : encodeFile cs ++ encodeTxnSt t.status (mkTxn (filePos cs) t)
+      = encodeFile (cs ++ [mkTxn (filePos cs) t]) := by
+    rw [encodeFile_append]; rfl
+  have hfull : (voteBytes (filePos cs) t).take (voteBytes (filePos cs) t).length
+      = voteBytes (filePos cs) t := by simp
+  match k, hk with
+  | 0, _ =>
+    refine ⟨0, by simp [returned], by omega, ?_⟩
+    simp only [image, opEvents, List.take_zero, applyEvents, List.foldl_nil,
+      List.getElem?_cons_zero, List.append_nil]
+    rw [applyWrite_end' _ _ _ hp]
+    exact recover_clean_tail' cs hw _ (torn_vote _ t ha nb)
+  | 1, _ =>
+    by_cases hnb : nb = 0
+    · refine ⟨0, by simp [returned, opEvents], by omega, ?_⟩
+      subst hnb
+      simp only [image, opEvents, List.take_succ_cons, List.take_zero, applyEvents, List.foldl_cons,
+        List.foldl_nil, applyEv, List.getElem?_cons_succ, List.getElem?_cons_zero, List.append_nil]
+      rw [applyWrite_end' _ _ _ hp]
+      simp only [applyWrite, List.length_nil, if_true]
+      rw [← hfull]
+      exact recover_clean_tail' cs hw _ (torn_vote _ t ha _)
+    · refine ⟨1, by simp [returned, opEvents], by omega, ?_⟩
+      have htk : (be 1 t.status).take nb = be 1 t.status :=
+        List.take_of_length_le (by simp [be_length]; omega)
+      simp only [image, opEvents, List.take_succ_cons, List.take_zero, applyEvents, List.foldl_cons,
+        List.foldl_nil, applyEv, List.getElem?_cons_succ, List.getElem?_cons_zero, htk]
+      rw [applyWrite_end' _ _ _ hp, voteBytes, applyWrite_status' _ _ _ _ _ hp, hfin]
+      exact recover_clean _ hw1
+  | 2, _ =>
+    refine ⟨1, by simp [returned, opEvents], by omega, ?_⟩
+    simp only [image, opEvents, List.take_succ_cons, List.take_zero, applyEvents, List.foldl_cons,
+      List.foldl_nil, applyEv, List.getElem?_cons_succ, List.getElem?_cons_zero]
+    rw [applyWrite_end' _ _ _ hp, voteBytes, applyWrite_status' _ _ _ _ _ hp, hfin]
+    exact recover_clean _ hw1
+
 theorem commit_apply (cs : List FTxn) (t : FTxn) (hw : FileWF cs) :
     applyEvents (encodeFile cs) (opEvents cs (.commit t))
+      = encodeFile (cs ++ [mkTxn (filePos cs) t]) := by
+  have hp := filePos_eq cs hw
+  simp only [opEvents, applyEvents, List.foldl_cons, List.foldl_nil, applyEv]
+  rw [applyWrite_end' _ _ _ hp, voteBytes, applyWrite_status' _ _ _ _ _ hp, encodeFile_append]; rfl
+
+theorem fsyncfail_apply (cs : List FTxn) (t : FTxn) (hw : FileWF cs) :
+    applyEvents (encodeFile cs) (opEvents cs (.finishFsyncFails t))
       = encodeFile (cs ++ [mkTxn (filePos cs) t]) := by
   have hp := filePos_eq cs hw
   simp only [opEvents, applyEvents, List.foldl_cons, List.foldl_nil, applyEv]
@@ -361,12 +413,13 @@ theorem op_cut (cs : List FTxn) (op : Op) (hw : FileWF cs) (ho : OpWF cs op) (k 
     · simp only [opEvents, opCommits, List.take_nil, List.append_nil]
       exact vote_trunc_cut cs hw _ (torn_vote_take _ t ho n) k nb (by simpa [opEvents] using hk)
   | abortBeforeVote => simp [opEvents] at hk
+  | finishFsyncFails t => exact fsyncfail_cut cs t hw ho k nb (by simpa [opEvents] using hk)
 
 /-- net effect of one complete operation -/
 theorem op_apply (cs : List FTxn) (op : Op) (hw : FileWF cs) (ho : OpWF cs op) :
     applyEvents (encodeFile cs) (opEvents cs op) = encodeFile (cs ++ opCommits cs op) ∧
     FileWF (cs ++ opCommits cs op) ∧
-    returned (opEvents cs op) = (opCommits cs op).length := by
+    returned (opEvents cs op) ≤ (opCommits cs op).length := by
   cases op with
   | commit t =>
     exact ⟨commit_apply cs t hw, fileWF_append cs _ hw ho, by simp [returned, opEvents, opCommits]⟩
@@ -379,6 +432,8 @@ theorem op_apply (cs : List FTxn) (op : Op) (hw : FileWF cs) (ho : OpWF cs op) :
   | abortBeforeVote =>
     simp only [opCommits, List.append_nil]
     exact ⟨rfl, hw, by simp [returned, opEvents]⟩
+  | finishFsyncFails t =>
+    exact ⟨fsyncfail_apply cs t hw, fileWF_append cs _ hw ho, by simp [returned, opEvents, opCommits]⟩
 
 /-! ### all histories, all cuts -/
 
@@ -408,14 +463,14 @@ theorem crash_prefix (ops : List Op) : ∀ (cs : List FTxn) (k : Nat), FileWF cs
       obtain ⟨n, h1, h2, r, h3, h4⟩ := ih (cs ++ opCommits cs op) (k - (opEvents cs op).length)
         hw' ho2 nb
       refine ⟨(opCommits cs op).length + n, ?_, by simp; omega, r, ?_, ?_⟩
-      · rw [returned_append_ge _ _ _ hk', hret]; omega
+      · rw [returned_append_ge _ _ _ hk']; omega
       · rw [image_append_ge _ _ _ _ _ hk', happ]; exact h3
       · rw [List.take_length_add_append, ← List.append_assoc]; exact h4
 
 /-- final state of a complete history -/
 theorem trace_apply (ops : List Op) : ∀ (cs : List FTxn), FileWF cs → OpsWF cs ops →
     applyEvents (encodeFile cs) (trace cs ops) = encodeFile (cs ++ newCommits cs ops) ∧
-    FileWF (cs ++ newCommits cs ops) ∧ returned (trace cs ops) = (newCommits cs ops).length := by
+    FileWF (cs ++ newCommits cs ops) ∧ returned (trace cs ops) ≤ (newCommits cs ops).length := by
   induction ops with
   | nil => intro cs hw _; simp [trace, newCommits, applyEvents, returned, hw]
   | cons op ops ih =>
@@ -467,6 +522,7 @@ def touchesBelow (n : Nat) : Ev → Prop
   | .write off _ => off < n
   | .trunc m => m < n
   | .fsync => False
+  | .fsyncFailed => False
   | .ret => False
 
 theorem touchesBelow_mono {n m : Nat} (h : n ≤ m) (e : Ev) (he : ¬ touchesBelow m e) :
@@ -500,6 +556,9 @@ theorem trace_touches (ops : List Op) : ∀ (cs : List FTxn), ∀ e ∈ trace cs
         simp only [opEvents, List.mem_cons, List.not_mem_nil, or_false] at he
         rcases he with rfl | rfl <;> simp [touchesBelow]
       | abortBeforeVote => simp [opEvents] at he
+      | finishFsyncFails t =>
+        simp only [opEvents, List.mem_cons, List.not_mem_nil, or_false] at he
+        rcases he with rfl | rfl | rfl <;> simp [touchesBelow]
     · exact touchesBelow_mono (filePos_le_op cs op) e (ih _ e he)
 
 /-- the only `ret` among the events of one operation is the last event of a commit -/
@@ -521,6 +580,9 @@ theorem opEvents_ret (cs : List FTxn) (op : Op) (pre post : List Ev)
     simp only [opEvents] at h
     rcases pre with _ | ⟨a, _ | ⟨b, _ | ⟨c, pre⟩⟩⟩ <;> simp at h
   | abortBeforeVote => simp [opEvents] at h
+  | finishFsyncFails t =>
+    simp only [opEvents] at h
+    rcases pre with _ | ⟨a, _ | ⟨b, _ | ⟨c, _ | ⟨d, pre⟩⟩⟩⟩ <;> simp at h
 
 theorem fsync_before_return (ops : List Op) : ∀ (cs : List FTxn) (pre post : List Ev),
     OpsWF cs ops → trace cs ops = pre ++ .ret :: post →
